@@ -618,7 +618,7 @@ Definition items_list (cfg : enc_cfg) seqs uids since before ssince sbefore (hdr
   map (w_flag_key true) notflag ++
   (if (0 <? larger)%Z then [slit "LARGER " +++ enc_number64 larger] else []) ++
   (if (0 <? smaller)%Z then [slit "SMALLER " +++ enc_number64 smaller] else []) ++
-  w_modseq modseq ++
+  w_modseq cfg modseq ++
   map (fun n => slit "NOT " +++ w_key cfg n) nots ++
   map (fun p => slit "OR " +++ w_key cfg (fst p) +++ sp +++ w_key cfg (snd p)) ors.
 
